@@ -36,7 +36,7 @@ def correspond(ctx, scale):
     failures, samples, cases, meta = [], [], [], []
     ev = nt = 0
     dist = {'worlds': [], 'rank_state_comparisons': 0, 'single_process_comparisons': 0, 'model_cases': 0, 'dropout_depth_comparisons': 0, 'lfq_entropy_checks': 0}
-    worlds = [2] if not ctx.thorough else [2, 3, 4]
+    worlds = [2, 3] if not ctx.thorough else [2, 3, 4]       # world size >= 3: several peers per receiver (variably sized gathers)
     steps = 3 if not ctx.thorough else 5
     for world in worlds:
         for rep in range(scale if not ctx.thorough else 2 * scale):
